@@ -88,7 +88,11 @@ N_JEXER = 4
 def space(ctx):
     return {"single_code_points": [0, 0x10FFFF], "alphabet": ["U+%04X" % ord(c) for c in ALPHA],
             "tuples_over_alphabet": [2, 3] if ctx.thorough else [2],
-            "generated_dex": {"strings": len(dex_strings()), "paths": list(DEX_PATHS),
+            "generated_dex": {"strings": len(dex_strings()) + 1, "paths": list(DEX_PATHS),
+                              "field_types": ["String", "Object", "CharSequence"], "long_string_chars": len(LONG_STRING),
+                              "entry_points": ["get_source()", "get_source_ext() tokens (CONSTANT_STRING, FIELD_VALUE)",
+                                               "get_ast() Literal values (the string itself or a Java literal accepted)"],
+                              "decoy_history": "same names and pool, constants in reversed order, decompiled first",
                               "spread_code_points": ["U+%04X" % c for c in spread_code_points()][:12] + ["..."]},
             "javac_bound": ["all BMP one-char literals", "pair literals"] + (["triple literals"] if ctx.thorough else [])
             + ["non-BMP plane-boundary samples", "all sequences of <=3 tokens over %r" % TOKENS,
@@ -206,7 +210,15 @@ def check_tuple(fns, fname, chars, acc):
 
 
 # ---------------------------------------------------------------------------------- generated DEX paths
-DEX_PATHS = ("dex-const-string", "dex-const-string-jumbo", "field-init")
+# path -> parent path (a failure with the same text as the parent's failure is counted once, under the parent)
+DEX_PARENT = {"dex-const-string": None, "dex-const-string-jumbo": None, "field-init": None,
+              "field-init-object": "field-init", "field-init-charsequence": "field-init",
+              "ext:dex-const-string": "dex-const-string", "ext:dex-const-string-jumbo": "dex-const-string-jumbo",
+              "ext:field-init": "field-init", "ext:field-init-object": "field-init-object",
+              "ext:field-init-charsequence": "field-init-charsequence",
+              "ast:dex-const-string": None, "ast:dex-const-string-jumbo": None, "ast:field-init": None}
+DEX_PATHS = tuple(DEX_PARENT)
+LONG_STRING = "".join(ALPHA) * 500            # 20000 characters, 2-byte uleb length, every alphabet adjacency
 N_DEX = 16
 
 
@@ -235,9 +247,26 @@ def _between(text, start, nxt, what):
     return text[i + len(start):j]
 
 
+def _string_literals_of_ast(node, out):
+    if isinstance(node, (list, tuple)):
+        if len(node) == 3 and node[0] == "Literal" and isinstance(node[2], (list, tuple)) and tuple(node[2]) == ("java/lang/String", 0):
+            out.append(node[1])
+            return
+        for x in node:
+            _string_literals_of_ast(x, out)
+
+
 def dex_render(strings):
-    """Build one class holding `strings` as const-string / const-string/jumbo operands and as static String field
-    initialisers, decompile it, and cut out the literal printed for each.  -> {path: [literal text per string]}"""
+    """Decoy history first: the same class, field and method names and the same pool, but every constant sits in
+    another field / call (reversed order), pushed through every entry point, results ignored."""
+    _dex_render(list(reversed(strings)))
+    return _dex_render(strings)
+
+
+def _dex_render(strings):
+    """Build one class holding `strings` as const-string / const-string/jumbo operands and as initialisers of static
+    fields declared String, Object and CharSequence; decompile it through get_source(), the get_source_ext() token
+    stream and get_ast(), and cut out what is printed for each.  -> {path: [text per string]}"""
     from gen import dalvik as D, dexgen as G
     from androguard.core import dex
     from androguard.core.analysis.analysis import Analysis
@@ -253,14 +282,21 @@ def dex_render(strings):
             return b + D.enc("return-void")
         return f
     st = G.ACC_STATIC | G.ACC_PUBLIC
-    c = G.Class("Lp/S;", sfields=[G.Field("f%04d" % i, "Ljava/lang/String;", st) for i in range(n)],
-                static_values=[G.EV("string", s) for s in strings],
+    c = G.Class("Lp/S;", sfields=[G.Field("f%04d" % i, "Ljava/lang/String;", st) for i in range(n)]
+                + [G.Field("g%04d" % i, "Ljava/lang/Object;", st) for i in range(n)]
+                + [G.Field("h%04d" % i, "Ljava/lang/CharSequence;", st) for i in range(n)],
+                static_values=[G.EV("string", s) for s in strings] * 3,
                 dmethods=[G.Method("ka", "V", (), st, G.Code(2, 0, 2, body("const-string", "use"))),
                           G.Method("kb", "V", (), st, G.Code(2, 0, 2, body("const-string/jumbo", "usj")))])
     vm = dex.DEX(G.build(G.Dex([c])))
-    dc = DvClass(vm.get_classes()[0], Analysis(vm))
+    dx = Analysis(vm)
+    dc = DvClass(vm.get_classes()[0], dx)
     dc.process()
     src = dc.get_source()
+    ext = dc.get_source_ext()
+    da = DvClass(vm.get_classes()[0], dx)
+    da.process(doAST=True)
+    ast = da.get_ast()
     out = {p: [] for p in DEX_PATHS}
     msrc = {m.name: m.get_source() for m in dc.methods if isinstance(m, DvMethod)}
     for path, mname, sink in (("dex-const-string", "ka", "use"), ("dex-const-string-jumbo", "kb", "usj")):
@@ -273,13 +309,67 @@ def dex_render(strings):
             if not t.endswith(");"):
                 raise DexRenderError("call %d of %s does not end in ');': %r" % (i, path, t[-20:]))
             out[path].append(t[:-2])
+    for path, tname, fl, nfl in (("field-init", "String", "f", "g"), ("field-init-object", "Object", "g", "h"),
+                                 ("field-init-charsequence", "CharSequence", "h", None)):
+        for i in range(n):
+            if i + 1 < n:
+                nxt = "    public static %s %s%04d" % (tname, fl, i + 1)
+            else:
+                nxt = "    public static Object g0000" if nfl == "g" else "    public static CharSequence h0000" if nfl == "h" \
+                    else "\n    public static void k"
+            t = _between(src, "%s %s%04d = " % (tname, fl, i), nxt, path).rstrip()
+            if not t.endswith(";"):
+                raise DexRenderError("field initialiser %s%d does not end in ';': %r" % (fl, i, t[-20:]))
+            out[path].append(t[:-1])
+    # --- the token stream
+    fval = {}
+    for kind, toks in ext:
+        if kind == "FIELD":
+            d = {}
+            for t in toks:
+                d.setdefault(t[0], t[1])
+            if "FIELD_VALUE" in d:
+                if not d["FIELD_VALUE"].startswith(" = "):
+                    raise DexRenderError("FIELD_VALUE token %r does not start with ' = '" % d["FIELD_VALUE"][:20])
+                fval[d.get("NAME_FIELD")] = d["FIELD_VALUE"][3:]
+    for path, fl in (("ext:field-init", "f"), ("ext:field-init-object", "g"), ("ext:field-init-charsequence", "h")):
+        for i in range(n):
+            nm = "%s%04d" % (fl, i)
+            if nm not in fval:
+                raise DexRenderError("no FIELD_VALUE token for field %s in get_source_ext()" % nm)
+            out[path].append(fval[nm])
+    mext = {m.name: m.get_source_ext() for m in dc.methods if isinstance(m, DvMethod)}
+    for path, mname in (("ext:dex-const-string", "ka"), ("ext:dex-const-string-jumbo", "kb")):
+        lits = [t[1] for t in mext.get(mname, ()) if t[0] == "CONSTANT_STRING"]
+        if len(lits) != n:
+            raise DexRenderError("%d CONSTANT_STRING tokens in the ext stream of %s for %d constants" % (len(lits), mname, n))
+        out[path] = lits
+    # --- the AST (values, not Java text)
+    am = {m["triple"][1]: m for m in ast["methods"]}
+    for path, mname in (("ast:dex-const-string", "ka"), ("ast:dex-const-string-jumbo", "kb")):
+        vals = []
+        _string_literals_of_ast(am[mname]["body"] if mname in am else [], vals)
+        if len(vals) != n:
+            raise DexRenderError("%d string literals in the AST of %s for %d constants" % (len(vals), mname, n))
+        out[path] = vals
+    af = {f["triple"][1]: f["expr"] for f in ast["fields"]}
     for i in range(n):
-        nxt = "    public static String f%04d" % (i + 1) if i + 1 < n else "\n    public static void k"
-        t = _between(src, "String f%04d = " % i, nxt, "field-init").rstrip()
-        if not t.endswith(";"):
-            raise DexRenderError("field initialiser %d does not end in ';': %r" % (i, t[-20:]))
-        out["field-init"].append(t[:-1])
+        e = af.get("f%04d" % i)
+        if not (isinstance(e, (list, tuple)) and len(e) == 3 and e[0] == "Literal"):
+            raise DexRenderError("AST of field f%04d has no Literal initialiser: %r" % (i, e))
+        out["ast:field-init"].append(e[1])
     return out
+
+
+def judge_ast_value(v, s):
+    """The AST carries the constant as a value.  Accepted: the very string, or a Java literal that denotes it."""
+    if isinstance(v, str) and javalex.utf16_units(v) == javalex.utf16_units(s):
+        return v, None
+    if not isinstance(v, str):
+        return None, "the AST carries %r" % (v,)
+    lit, bad = judge_lit(v, s)
+    return v, (None if not bad else "the AST carries %s, which is neither the constant [%s] nor a Java literal denoting it"
+               % (ascii(v), " ".join("%04x" % x for x in javalex.utf16_units(s))))
 
 
 def check_dex(fns, strings, acc, count_singles=True, only=None):
@@ -295,12 +385,15 @@ def check_dex(fns, strings, acc, count_singles=True, only=None):
         acc.violation("dex:raises", {"kind": "dex", "path": "any", "strs": [[ord(c) for c in s] for s in strings]},
                       "decompiling a class with %d string constants raised %s: %s" % (len(allstr), type(e).__name__, e))
         return {}
+    allv = {}
     for path in DEX_PATHS:
-        if only and path != only:
+        if only and path != only and DEX_PARENT.get(only) != path:
             continue
         verdict = {}
         for s, lit in zip(allstr, lits[path]):
-            verdict[s] = judge_lit(lit, s)
+            verdict[s] = judge_ast_value(lit, s) if path.startswith("ast:") else judge_lit(lit, s)
+        allv[path] = verdict
+        parent = DEX_PARENT[path]
         for k, s in enumerate(allstr):
             if k < len(singles) and not count_singles:
                 continue
@@ -311,15 +404,17 @@ def check_dex(fns, strings, acc, count_singles=True, only=None):
             bad = verdict[s][1]
             if not bad:
                 continue
-            if len(s) > 1 and any(verdict[c][1] for c in s):
+            if len(s) > 1 and any(verdict[c][1] for c in set(s)):
                 acc.count("subsumed_by_single")
-            elif path != "field-init" and judge(fns["string"], s)[1]:
-                acc.count("subsumed_by_string")
+            elif parent and parent in allv and allv[parent][s][1] and allv[parent][s][0] == verdict[s][0]:
+                acc.count("subsumed_by_parent_path")
+            elif not path.startswith("ast:") and judge(fns["string"], s)[1] and judge(fns["string"], s)[0] == verdict[s][0]:
+                acc.count("subsumed_by_string")      # the same wrong text string() gives: reported under single:/pair:
             else:
                 # in a DEX (MUTF-8) a high+low surrogate pair and the supplementary character are the same constant
                 norm = s.encode("utf-16-le", "surrogatepass").decode("utf-16-le", "surrogatepass")
-                kind = {0: "empty", 1: "single", 2: "pair"}.get(len(norm), "tuple")
-                shape = cls(norm) if len(norm) == 1 else "+".join(cls_ctx(c) for c in norm)
+                kind = {0: "empty", 1: "single", 2: "pair"}.get(len(norm), "long")
+                shape = cls(norm) if len(norm) == 1 else "+".join(cls_ctx(c) for c in norm) if len(norm) == 2 else ""
                 acc.violation("%s:%s%s" % (path, kind, ":" + shape if shape else ""),
                               {"kind": "dex", "path": path, "cps": [ord(c) for c in s]},
                               "%s of a generated DEX, constant %s: %s" % (path, ascii(s), bad))
@@ -554,7 +649,8 @@ def run_shard(ctx, shard):
                 lit = check_tuple(fns, "string", (a, b, c), acc)
                 acc.outcomes.add(hash(lit))
     elif kind == "dex":
-        lits = check_dex(fns, dex_strings()[shard[1]::N_DEX], acc, count_singles=shard[1] == 0)
+        lits = check_dex(fns, dex_strings()[shard[1]::N_DEX] + ([LONG_STRING] if shard[1] == 1 else []), acc,
+                         count_singles=shard[1] == 0)
         if shard[1] == 0 and lits:
             k = len(ALPHA)        # the empty string is the first non-alphabet entry of shard 0
             acc.sample({"input": "U+0022 (one-character string) in a generated DEX",
@@ -579,7 +675,8 @@ def run_shard(ctx, shard):
         lits = check_dex(fns, dex_strings(), acc2)
         acc.harness_errors += acc2.harness_errors
         if lits:
-            bind(acc, lits["field-init"] + lits["dex-const-string"], "field initialisers / const-string of a generated DEX")
+            bind(acc, lits["field-init"] + lits["field-init-object"] + lits["field-init-charsequence"] + lits["dex-const-string"],
+                 "field initialisers / const-string of a generated DEX")
     elif kind == "jtriples":
         lits = [judge(fns["string"], a + b + c)[0] for a in ALPHA[shard[1]:shard[1] + 5] for b in ALPHA for c in ALPHA]
         bind(acc, [l for l in lits if l is not None], "triples %d" % shard[1])
@@ -641,7 +738,7 @@ def finalize(ctx, acc):
                              (lambda s: '"\\u0022"', '"', True), (lambda s: '"\\u005c\\u005c"', "\\", False)):
         if bool(judge(fn, s)[1]) != must_fire:
             acc.harness_error("oracle self-test on %s: fired=%r" % (ascii(s), not must_fire))
-    want_n = 0x110000 + 2 * 1600 + (64000 if ctx.thorough else 0) + 3 * (len(ALPHA) + len(dex_strings()))
+    want_n = 0x110000 + 2 * 1600 + (64000 if ctx.thorough else 0) + len(DEX_PATHS) * (len(ALPHA) + len(dex_strings()) + 1)
     if acc.n != want_n:
         acc.harness_error("evaluations %d != size of the stated space %d" % (acc.n, want_n))
     if len(acc.outcomes) < 1000:
@@ -659,5 +756,8 @@ def finalize(ctx, acc):
              "surrogate followed by a backslash javac mis-pairs backslashes and rejects e.g. \"\\ud800\\\\\\u0000\", which "
              "HEAD's writer emits for the string U+D800 U+005C U+0000 (such literals are excluded from the binding and "
              "counted in javac_binding_excluded_known_javac_surrogate_defect)")
+    acc.note("get_ast(): the initialiser of a static field that is not declared String is a Dummy node in the AST "
+             "(decompile.get_field_ast) - only String-declared fields are judged through the AST; the AST value is "
+             "accepted as the constant itself or as a Java literal denoting it")
     if not acc.extra.get("shards:dex"):
         acc.harness_error("no generated-DEX shard ran")
